@@ -320,5 +320,7 @@ def run(ctx, eng):
            n > 0 and not bad, '; '.join(sorted(set(bad))) or
            'pushed_stream_id = promised id; headers = processed headers',
            node=fi.node)
+    from . import c20
+    c20.check_push_leniency(ctx, eng)
     ctx.assume('ENABLE_PUSH timing over histories beyond "the acknowledged '
                'value is the one read" is not decided')
